@@ -528,8 +528,9 @@ func recvTypeName(fn *ssa.Function) string {
 }
 
 func namedOf(t types.Type) *types.Named {
+	t = types.Unalias(t)
 	if p, ok := t.(*types.Pointer); ok {
-		t = p.Elem()
+		t = types.Unalias(p.Elem())
 	}
 	n, _ := t.(*types.Named)
 	return n
